@@ -267,6 +267,14 @@ def gen_recursive(d, tier):
     yield ("recursive-through-store", {idk: ROOT, "properties": {"kids": {"items": {"$ref": "node.json"}}}},
            {"http://h.invalid/dir/node.json": {"properties": {"v": {"type": "string"},
                                                               "kids": {"items": {"$ref": "node.json"}}}}})
+    # the empty reference designates the document itself (RFC 3986 same-document reference); with ignored siblings
+    for i, sib in enumerate(siblings(d)):
+        yield ("recursive-empty-ref|sib%d" % i,
+               {"properties": {"v": {"type": "integer"}, "kids": {"items": dict({"$ref": ""}, **sib)}}}, {})
+        yield ("recursive-empty-ref-with-id|sib%d" % i,
+               {idk: ROOT, "properties": {"v": {"type": "integer"}, "kids": {"items": dict({"$ref": ""}, **sib)}}}, {})
+        yield ("recursive-hash-ref|sib%d" % i,
+               {"properties": {"v": {"type": "integer"}, "kids": {"items": dict({"$ref": "#"}, **sib)}}}, {})
     yield ("mutual", {"definitions": {"a": {"items": {"$ref": "#/definitions/b"}},
                                       "b": {"properties": {"x": {"$ref": "#/definitions/a"}}, "type": "object"}},
                       "$ref": "#/definitions/a"}, {})
